@@ -58,9 +58,9 @@ def to_py(v):
     if t == "nil":
         return None
     if t == "bool":
-        return bool(v["v"])
+        return bool(v["b"])
     if t == "int":
-        return int(v["v"])
+        return int(v["n"])
     if t == "str":
         s = conc(v["v"])
         if v.get("safe"):
@@ -70,7 +70,7 @@ def to_py(v):
     if t == "arr":
         return [to_py(x) for x in v["v"]]
     if t == "hash":
-        return {conc(k): to_py(x) for k, x in v["v"]}
+        return {conc(k): to_py(x) for k, x in v["h"]}
     if t == "range":
         return range(v["a"], v["b"] + 1)
     if t == "odrop":
